@@ -115,8 +115,8 @@ def run(pid, tier, seed, replay=None):
             r = fu.result()
             if r["violated"] or not r["complete"]:
                 raise vlib.MachineryError("model %s/%s: violated=%s complete=%s\n%s" % (mod, cfg, r["violated"], r["complete"], r["out"][-2000:]))
-            for a, (taken, _g) in vlib.tlc_coverage(r["out"]).items():
-                covall[a] = covall.get(a, 0) + taken
+            for a, (taken, gen_) in vlib.tlc_coverage(r["out"]).items():
+                covall[a] = covall.get(a, 0) + max(taken, gen_)
             states += r["distinct"]
             trans += r["generated"]
             runs.append({"module": mod, "cfg": cfg, "distinct": r["distinct"], "generated": r["generated"], "depth": r["depth"]})
